@@ -251,6 +251,11 @@ mod native {
 
         /// Validate the header of a pointer handed to dealloc/realloc. Returns (size, meta) if live.
         unsafe fn validate(&mut self, ptr: *mut u8, layout: Layout) -> Option<(usize, u64)> {
+            if (ptr as usize) < 4096 {
+                // null (or near-null) handed to dealloc/realloc
+                self.note(HeapViolation::InvalidFree, 0);
+                return None;
+            }
             let h = ptr.sub(HDR) as *mut u64;
             let magic = h.read();
             if magic == MAGIC_FREE {
@@ -344,6 +349,10 @@ mod native {
         }
 
         pub unsafe fn realloc(&mut self, ptr: *mut u8, layout: Layout, new_size: usize) -> *mut u8 {
+            if (ptr as usize) < 4096 {
+                self.note(HeapViolation::InvalidFree, 0);
+                return self.alloc(Layout::from_size_align_unchecked(new_size, layout.align()), tracking(), false);
+            }
             let h = ptr.sub(HDR) as *mut u64;
             let magic = h.read();
             if magic != MAGIC_LIVE {
@@ -421,41 +430,73 @@ mod native {
     }
 }
 
+/// Native workers are single-threaded, except for the reader-thread scenario (F7), which only reads shared
+/// values but does allocate its own results: a spin lock keeps the allocator's bookkeeping sound there.
+#[cfg(not(miri))]
+static LOCK: AtomicBool = AtomicBool::new(false);
+#[cfg(not(miri))]
+struct Guard;
+#[cfg(not(miri))]
+impl Guard {
+    #[inline]
+    fn take() -> Guard {
+        while LOCK.compare_exchange_weak(false, true, std::sync::atomic::Ordering::Acquire, Relaxed).is_err() {
+            std::hint::spin_loop();
+        }
+        Guard
+    }
+}
+#[cfg(not(miri))]
+impl Drop for Guard {
+    #[inline]
+    fn drop(&mut self) {
+        LOCK.store(false, std::sync::atomic::Ordering::Release);
+    }
+}
+
 #[cfg(not(miri))]
 unsafe impl GlobalAlloc for SimAlloc {
     unsafe fn alloc(&self, layout: Layout) -> *mut u8 {
         if should_fail() {
             return std::ptr::null_mut();
         }
+        let _g = Guard::take();
         native::st().alloc(layout, tracking(), false)
     }
     unsafe fn alloc_zeroed(&self, layout: Layout) -> *mut u8 {
         if should_fail() {
             return std::ptr::null_mut();
         }
+        let _g = Guard::take();
         native::st().alloc(layout, tracking(), true)
     }
     unsafe fn dealloc(&self, ptr: *mut u8, layout: Layout) {
+        let _g = Guard::take();
         native::st().dealloc(ptr, layout)
     }
     unsafe fn realloc(&self, ptr: *mut u8, layout: Layout, new_size: usize) -> *mut u8 {
         if should_fail() {
             return std::ptr::null_mut();
         }
+        let _g = Guard::take();
         native::st().realloc(ptr, layout, new_size)
     }
 }
 
+/// under Miri the simulated machine is small: big requests are refused (interpreting them would take forever)
+#[cfg(miri)]
+const MIRI_BUDGET: usize = 1 << 20;
+
 #[cfg(miri)]
 unsafe impl GlobalAlloc for SimAlloc {
     unsafe fn alloc(&self, layout: Layout) -> *mut u8 {
-        if should_fail() {
+        if should_fail() || (tracking() && layout.size() > MIRI_BUDGET) {
             return std::ptr::null_mut();
         }
         System.alloc(layout)
     }
     unsafe fn alloc_zeroed(&self, layout: Layout) -> *mut u8 {
-        if should_fail() {
+        if should_fail() || (tracking() && layout.size() > MIRI_BUDGET) {
             return std::ptr::null_mut();
         }
         System.alloc_zeroed(layout)
@@ -464,7 +505,7 @@ unsafe impl GlobalAlloc for SimAlloc {
         System.dealloc(ptr, layout)
     }
     unsafe fn realloc(&self, ptr: *mut u8, layout: Layout, new_size: usize) -> *mut u8 {
-        if should_fail() {
+        if should_fail() || (tracking() && new_size > MIRI_BUDGET) {
             return std::ptr::null_mut();
         }
         System.realloc(ptr, layout, new_size)
